@@ -12,6 +12,7 @@ import (
 	"regexp"
 	"strconv"
 	"strings"
+	"time"
 
 	"golang.org/x/tools/go/ssa"
 )
@@ -532,6 +533,23 @@ func init() {
 			r := tModE(abs, d.t)
 			res := tSub(x.t, r)
 			return mkTime(symIntValue(i.W, &symInt{t: res, lo: new(big.Int).Sub(x.lo, d.hi), hi: x.hi}))
+		},
+		"(time.Time).Format": func(i *interpreter, _ *frame, _ *ssa.Function, a []value) value {
+			x := timeNs(a[0])
+			if !x.t.cst {
+				panic(unmodelled{"Format of a symbolic time"})
+			}
+			if !x.t.iv.IsInt64() {
+				return time.Time{}.Format(argStr(a[1]))
+			}
+			return time.Unix(0, x.t.iv.Int64()).UTC().Format(argStr(a[1]))
+		},
+		"time.Parse": func(i *interpreter, _ *frame, _ *ssa.Function, a []value) value {
+			t, err := time.Parse(argStr(a[0]), argStr(a[1]))
+			if err != nil {
+				return tuple{structure{uint64(0), int64(0), (*value)(nil)}, i.mkError(err.Error())}
+			}
+			return tuple{mkTime(t.UnixNano()), iface{}}
 		},
 		"time.Sleep": func(i *interpreter, _ *frame, _ *ssa.Function, a []value) value { i.W.m.sleep(a[0]); return nil },
 		"time.After": func(i *interpreter, _ *frame, fn *ssa.Function, a []value) value {
